@@ -1076,10 +1076,10 @@ pub fn run(ctx: &Ctx) {
         std::process::exit(2);
     }
     let dev = |k: &str, dflt: usize| std::env::var(k).ok().and_then(|x| x.parse().ok()).unwrap_or(dflt);
-    let n_same = dev("VERIF_C30_SAME", ctx.scale(128, 6000));
-    let n_two = dev("VERIF_C30_TWO", ctx.scale(48, 2000));
-    let n_ls = dev("VERIF_C30_LS", ctx.scale(64, 3000));
-    let n_stress = dev("VERIF_C30_STRESS", ctx.scale(24, 600));
+    let n_same = dev("VERIF_C30_SAME", ctx.scale(96, 6000));
+    let n_two = dev("VERIF_C30_TWO", ctx.scale(32, 2000));
+    let n_ls = dev("VERIF_C30_LS", ctx.scale(48, 3000));
+    let n_stress = dev("VERIF_C30_STRESS", ctx.scale(16, 600));
     ctx.run("two-projects", CaseCfg::cases(n_two).choices(400).timeout_s(1500).shrink_iters(6), |d| two_projects(ctx, d));
     ctx.run("same-project", CaseCfg::cases(n_same).choices(900).timeout_s(1500).shrink_iters(12), |d| same_project(ctx, d));
     ctx.run("build-ls", CaseCfg::cases(n_ls).choices(900).timeout_s(1500).shrink_iters(6), |d| build_ls(ctx, d));
